@@ -337,10 +337,11 @@ func main() {
 	rn := &runner{w: w, o: o, batchTrials: 3}
 	if o.Tier == "thorough" {
 		rn.batchTrials = 6
+		aliasNum, aliasDen = 1, 1
 	}
 	rule := "histories of 6-20 records made by the real AclRecordBuilder methods (all kinds incl. multi-content BuildBatchRequest) by 7 accounts " +
 		"(owner, admins, writers, readers, guests, joiners, removed and re-added members), consensus-signed by the harness, delivered to replicas " +
-		"A (validating, one by one, with 15 kinds of raw-record mutations and builder-refused records), B (AddRawRecords chunks), C (non-validating member, " +
+		"A (validating, one by one, with 16 kinds of raw-record mutations incl. ~60 id aliases = re-encodings of the same digest, and builder-refused records), B (AddRawRecords chunks), C (non-validating member, " +
 		"acceptor check + partial decode, 6 acceptor mutations), D/D' (rebuilt from in-memory / any-store storage at a prefix), E (RecordsAfter catch-up), " +
 		"account replicas; batch stream: AddRawRecords batches [known records, 0-4 new valid records, a record that must be rejected, 0-2 valid continuation " +
 		"records] and the same sequence through AddRawRecord, where the rejected record is a hand-signed correctly chained record of 1-4 contents failing at " +
